@@ -379,9 +379,83 @@ def oracle_launch(ctx, pexpect, n):
             if bad:
                 ctx.hit('C13/launch-popen', 'PopenSpawn launch fidelity: ' + bad, {'config': cf, 'report': rep})
                 break
+        if not any(h[0] == 'C13/launch-popen' for h in ctx.hits):
+            popen_string_commands(ctx, pexpect, n)
     finally:
         shutil.rmtree(cwd, ignore_errors=True)
     ctx.oracle_stats['launch_probe_children'] = tried
+
+
+def popen_string_commands(ctx, pexpect, n):
+    """PopenSpawn given a command STRING: it is split by the POSIX shell rules (shlex), so quoting any list of non-empty arguments
+    in any of the three POSIX styles (single quotes, double quotes with \\" and \\\\ escaped, a backslash before every special
+    character) and joining them with blanks yields exactly that argv.  Many argument lists through an interposed Popen (what
+    PopenSpawn hands to subprocess), a few through a real child."""
+    import json
+    import re
+    import shlex
+    import pexpect.popen_spawn as pp
+    from pexpect.popen_spawn import PopenSpawn
+    rng = ctx.rng
+    alpha = ['a', 'b', ' ', '\t', "'", '"', '\\', 'é', '$', '*', '#']
+
+    def quote(a, style):
+        if style == 'single':
+            return shlex.quote(a)
+        if style == 'double':
+            return '"' + a.replace('\\', '\\\\').replace('"', '\\"') + '"'
+        return ''.join(c if c.isalnum() else '\\' + c for c in a)
+    seen = []
+
+    class FakePopen:
+        def __init__(self, cmd, **kw):
+            seen.append(cmd)
+            r, w = os.pipe()
+            os.close(w)
+            self.stdout = os.fdopen(r, 'rb', 0)
+            self.stdin = open(os.devnull, 'wb')
+            self.pid = 1
+            self.returncode = 0
+
+        def poll(self):
+            return 0
+
+        def wait(self, *a):
+            return 0
+    saved = pp.subprocess.Popen
+    tried = 0
+    try:
+        for it in range(60 * n):
+            real = it < 4
+            args = [''.join(rng.choice(alpha) for _ in range(rng.randint(1, 5))) for _ in range(rng.randint(0, 4))]
+            style = rng.choice(['single', 'double', 'backslash'])
+            lead, trail = rng.choice(['', ' ', '\t ']), rng.choice(['', ' ', ' \t'])
+            tail = ''.join(rng.choice([' ', '  ', '\t']) + quote(a, rng.choice([style, style, 'single', 'double', 'backslash'])) for a in args)
+            if real:
+                cmd = lead + shlex.quote(sys.executable) + ' -c ' + shlex.quote(PROBE) + tail + trail
+                p = PopenSpawn(cmd, timeout=30, encoding='utf-8')
+                p.expect(pexpect.EOF)
+                m = re.search(r'<<(.*)>>', p.before, re.S)
+                got = json.loads(m.group(1))['argv'] if m else None
+                p.wait()
+            else:
+                pp.subprocess.Popen = FakePopen
+                del seen[:]
+                cmd = lead + 'prog' + tail + trail
+                try:
+                    p = PopenSpawn(cmd, timeout=5)
+                    p.expect(pexpect.EOF)
+                finally:
+                    pp.subprocess.Popen = saved
+                got = seen[0][1:] if seen and isinstance(seen[0], list) and seen[0][:1] == ['prog'] else seen[:1]
+            tried += 1
+            if got != args:
+                ctx.hit('C13/launch-popen', 'PopenSpawn(%r): the child %s argv %r, the quoted arguments were %r' % (cmd, 'saw' if real else 'would get', got, args),
+                        {'cmd': cmd, 'args': args, 'style': style, 'real_child': real})
+                return
+    finally:
+        pp.subprocess.Popen = saved
+    ctx.oracle_stats['popen_string_commands'] = tried
 
 
 def oracle_spawn_lookup(ctx, pexpect):
